@@ -2,6 +2,7 @@ package rules
 
 import (
 	"fmt"
+	"go/ast"
 	"go/token"
 	"go/types"
 	"strings"
@@ -148,4 +149,113 @@ func c17r11(rc *core.RC) {
 		}
 	}
 	rc.Check(len(bad) == 0, key, fd.Pos(), "unicodeToRune, folded for %d four-byte inputs (every byte value in each position), returns the value of the hex digits of either case and -1 otherwise%s", count, map[bool]string{true: "", false: ": " + strings.Join(bad, "; ")}[len(bad) == 0])
+}
+
+// ---- C17.R12 the mark of what is written only moves behind a flush ----
+
+// The string writers keep two indexes: j scans, and the other (the mark) is where the part of the text begins that
+// has not been written yet. When a byte needs an escape the writer flushes s[mark:j], writes the escape and sets the
+// mark behind the byte; at the end it flushes s[mark:]. Every byte is written exactly once as long as the mark moves
+// only after a flush of what lies in front of it. An assignment to the mark with no flush in front (a loop that
+// reuses the variable as its counter) loses the text between the old and the new mark: the literal is still a valid
+// JSON string and decodes to a suffix of the original. Obligation, in every function of encoder/string.go that
+// appends s[mark:…]: each assignment or increment of the mark stands in a statement list in which an append of
+// s[mark:…] precedes it.
+func c17r12(rc *core.RC) {
+	p := rc.P
+	pk := p.Pkg("encoder")
+	if pk == nil {
+		rc.Unknown("encoder", token.NoPos, "package not found")
+		return
+	}
+	info := pk.TypesInfo
+	n, funcs := 0, 0
+	for _, fd := range p.Funcs("encoder") {
+		if fd.Body == nil || p.FileBase(fd.Pos()) != "string.go" {
+			continue
+		}
+		// the text parameter and the mark: append(buf, s[mark:…]...)
+		marks := map[types.Object]bool{}
+		isFlush := func(nd ast.Node, mark types.Object) bool {
+			hit := false
+			ast.Inspect(nd, func(m ast.Node) bool {
+				c, ok := m.(*ast.CallExpr)
+				if !ok || !core.IsBuiltin(info, c, "append") || !c.Ellipsis.IsValid() || len(c.Args) != 2 {
+					return true
+				}
+				se, ok := core.Unparen(c.Args[1]).(*ast.SliceExpr)
+				if !ok || se.Low == nil {
+					return true
+				}
+				if t := info.TypeOf(se.X); t == nil || (t.String() != "string" && t.String() != "[]byte") {
+					return true
+				}
+				if o := core.ObjOf(info, se.Low); o != nil && (mark == nil || o == mark) {
+					if mark == nil {
+						marks[o] = true
+					}
+					hit = true
+				}
+				return true
+			})
+			return hit
+		}
+		isFlush(fd.Body, nil)
+		if len(marks) == 0 {
+			continue
+		}
+		funcs++
+		name := p.FuncName(fd)
+		rc.Touch(name)
+		k := 0
+		check := func(st ast.Node, mark types.Object, what string) {
+			k++
+			n++
+			// the statement list that holds st, and a flush in front of it there
+			path := core.PathTo(fd.Body, st)
+			flushed := false
+			for i := len(path) - 2; i >= 0 && !flushed; i-- {
+				var list []ast.Stmt
+				switch x := path[i].(type) {
+				case *ast.BlockStmt:
+					list = x.List
+				case *ast.CaseClause:
+					list = x.Body
+				default:
+					continue
+				}
+				for _, s2 := range list {
+					if s2.Pos() >= st.Pos() {
+						break
+					}
+					if isFlush(s2, mark) {
+						flushed = true
+					}
+				}
+				break
+			}
+			rc.Check(flushed, fmt.Sprintf("%s/mark-write#%d behind-a-flush", name, k), st.Pos(), "%s moves %s, the start of the text that is not written yet, and no append of s[%s:…] stands in front of it in the same statement list: what lies between the old and the new position is never written (\"hello, world\\n\" comes out as \"\\n\")", what, mark.Name(), mark.Name())
+		}
+		ast.Inspect(fd.Body, func(m ast.Node) bool {
+			switch x := m.(type) {
+			case *ast.AssignStmt:
+				if x.Tok == token.DEFINE {
+					return true
+				}
+				for _, l := range x.Lhs {
+					if o := core.ObjOf(info, l); o != nil && marks[o] {
+						check(x, o, core.Src(p.Fset, x))
+					}
+				}
+			case *ast.IncDecStmt:
+				if o := core.ObjOf(info, x.X); o != nil && marks[o] {
+					check(x, o, core.Src(p.Fset, x))
+				}
+			}
+			return true
+		})
+	}
+	if funcs < 4 || n < 20 {
+		rc.Unknown("encoder/string-writers", token.NoPos, "found %d string writers with a mark and %d writes to it (confirmed: 4 and more than 20)", funcs, n)
+	}
 }
